@@ -59,7 +59,7 @@ ENV_SAN = {'ASAN_OPTIONS': 'detect_leaks=1:abort_on_error=0:exitcode=99:allocato
 ENV_NF = dict(ENV_SAN, ASAN_OPTIONS=ENV_SAN['ASAN_OPTIONS'].replace('detect_leaks=1', 'detect_leaks=0'))
 ENV_TIE = {'ASAN_OPTIONS': 'detect_leaks=1:abort_on_error=0:exitcode=99', 'UBSAN_OPTIONS': 'print_stacktrace=1:halt_on_error=1'}
 TIMEOUT_MS, RSS_MB = 10000, 2048
-RETRY_TIMEOUT_MS, RETRY_RSS_MB = 150000, 8192
+RETRY_TIMEOUT_MS, RETRY_RSS_MB = 90000, 8192
 
 OFFSET_SITES = ('DoBevel', 'DoSquare', 'DoRound', 'DoMiter', 'OffsetPoint', 'OffsetOpenPath', 'OffsetOpenJoined', 'OffsetPolygon',
                 'BuildNormals', 'DoGroupOffset')
@@ -86,8 +86,11 @@ def parse_reports(detail):
     # split at the beginning of each report
     marks = [m.start() for m in re.finditer(r'(?:\S+:\d+:\d+: runtime error:|==\d+==ERROR: (?:Address|Leak)Sanitizer)', detail)]
     marks.append(len(detail))
+    truncated = detail.endswith('...[truncated]')
     for a, b in zip(marks, marks[1:]):
         seg = detail[a:b]
+        if truncated and b == len(detail) and len(marks) > 2:
+            break                  # the last report was cut off by the harness' size cap: the earlier ones are complete
         frames = re.findall(r'#\d+ 0x[0-9a-f]+ in (.*?) (/[^ |]+?):(\d+)', seg)
         libf = [(fn, fl, ln) for fn, fl, ln in frames if is_lib(fl)]
         m = re.match(r'(\S+):(\d+):\d+: runtime error: ([^|]*)', seg)
@@ -169,6 +172,23 @@ def has_empty_open_path(line):
     return any(et != 0 and 0 in lens for et, lens in offset_groups(line))
 
 
+def bseq_readds_container(line):
+    """BSEQ case in which one ReuseableDataContainer64 is added to the same clipper a second time (item kind 8)"""
+    t = line.split()
+    if t[0] != 'BSEQ':
+        return False
+    try:
+        k, pos = int(t[6]), 7
+        for _ in range(k):
+            kind = int(t[pos])
+            _, pos = path_lengths(t, pos + 1)
+            if kind & 8:
+                return True
+    except (ValueError, IndexError):
+        pass
+    return False
+
+
 def is_nan_tok(s):
     return s.lower().lstrip('+-') == 'nan'
 
@@ -202,9 +222,15 @@ def judge(case, r, variant, ctx):
         if st == 'EXC':
             ctx.hist('exceptions_reaching_caller', '%s: %s' % (ent, det[:48]))
         return None
+    twice = bseq_readds_container(line)
+    TWICE = ('reuseable-data.same-container-added-twice',
+             'the same ReuseableDataContainer64 added twice to one Clipper64 (both copies share their Vertex objects, the sweep pairs '
+             'edges by vertex address): %s in %s [%s]: %s' % (st, ent, variant, det[:260]))
     if st == 'SAN':
         reps = parse_reports(det)
         hard = [x for x in reps if x['kind'] != 'signed-overflow']
+        if hard and twice:
+            return TWICE
         m = re.match(r'exit=(-?\d+)', det)
         code = int(m.group(1)) if m else 0
         if not hard and reps:
@@ -225,6 +251,10 @@ def judge(case, r, variant, ctx):
             return ('offset.empty-path.open-end-type',
                     'an EMPTY path in a ClipperOffset group with an open end type (Joined/Butt/Square/Round) reaches path[0]/norms[0] in %s '
                     '[%s, %s]: %s' % (x['fn'], ent, variant, x['text'][:300]))
+        if x['kind'] == 'stack-overflow' and ('CheckSplitOwner' in fr or 'CheckSplitOwner' in x['text']):
+            return ('polytree.checksplitowner.unbounded-recursion',
+                    'ClipperBase::CheckSplitOwner recurses without bound through splits of OutRecs without points (the #942 branch is '
+                    'taken before the recursive_split marker is tested): stack overflow [%s, %s]' % (ent, variant))
         if op in ('RDP', 'RDPD') and is_nan_tok(toks[1]) and x['kind'] == 'stack-overflow':
             return ('rdp.nan-epsilon.unbounded-recursion',
                     'RamerDouglasPeucker with epsilon = NaN recurses without bound (max_d <= NaN is false, idx stays 0): stack overflow '
@@ -241,21 +271,45 @@ def judge(case, r, variant, ctx):
                     % (det[18:80].split(' || ')[0], ent, variant))
         return ('leak.%s.%s' % ('after-exception' if after_exc else 'after-return', site),
                 'memory leaked by %s (allocated in %s) [%s]: %s' % (ent, site, variant, det[:400]))
+    if twice and st in ('CRASH', 'HANG', 'MEM'):
+        return TWICE
     if st == 'CRASH':
         if op in ('RDP', 'RDPD') and is_nan_tok(toks[1]):
             return ('rdp.nan-epsilon.unbounded-recursion', 'RamerDouglasPeucker with epsilon = NaN crashed [%s, %s]: %s' % (ent, variant, det[:200]))
         return ('crash.%s' % ent, '%s crashed [%s]: %s' % (ent, variant, det[:400]))
     if st in ('HANG', 'MEM'):
-        return ('%s.%s' % (st.lower(), ent), '%s exceeded the %s limit even on the retry (%s) [%s]: %s'
-                % (ent, 'CPU-time' if st == 'HANG' else 'resident-set', '%d s CPU / %d MB' % (RETRY_TIMEOUT_MS // 1000, RETRY_RSS_MB), variant, det[:200]))
+        big = potentially_large(line)
+        return ('%s.%s' % (st.lower(), ent), '%s exceeded the %s limit (%s) [%s]: %s'
+                % (ent, 'CPU-time' if st == 'HANG' else 'resident-set',
+                   ('%d s CPU / %d MB on the retry' % (RETRY_TIMEOUT_MS // 1000, RETRY_RSS_MB)) if big else
+                   ('%d s CPU / %d MB on an input of %d tokens without a large parameter' % (TIMEOUT_MS // 1000, RSS_MB, len(toks))), variant, det[:200]))
     return ('harness.%s' % st, 'unexpected harness status %s: %s' % (st, det[:300]))
 
 
+def potentially_large(line):
+    """may the RESULT of this case be legitimately large?  Only then is a first-pass HANG/MEM re-examined with the large
+    limits: a numeric parameter or coordinate of magnitude >= 2^30 with an operation whose output size grows with it
+    (offsetting builds circles of ~pi*sqrt(r) vertices, Ellipse likewise), or an input of more than 4000 tokens.
+    A small input without such a parameter that burns 10 s of CPU is a hang."""
+    t = line.split()
+    if len(t) > 4000:
+        return True
+    if t[0] in ('INF64', 'INFD', 'OFF', 'XI64', 'XI1_64', 'XID', 'XI1_D', 'ELL', 'ELLD'):
+        for x in t[1:]:
+            try:
+                v = abs(float(x))
+            except ValueError:
+                continue
+            if v != v or v >= 2.0 ** 30:
+                return True
+    return False
+
+
 def fuzz_variant(ctx, exe, cases, variant, found):
-    """run the stream; HANG/MEM cases are retried alone with much larger limits (a legitimately large result is not a hang)"""
+    """run the stream; HANG/MEM cases whose result may be legitimately large are retried alone with much larger limits"""
     t0 = time.time()
     res = run_supervised(exe, [c['line'] for c in cases], ENV_SAN, what='cx_fuzzapi[%s]' % variant)
-    retry = [i for i, r in enumerate(res) if r['status'] in ('HANG', 'MEM')]
+    retry = [i for i, r in enumerate(res) if r['status'] in ('HANG', 'MEM') and potentially_large(cases[i]['line'])]
     if retry:
         again = run_supervised(exe, [cases[i]['line'] for i in retry], ENV_SAN, RETRY_TIMEOUT_MS, RETRY_RSS_MB, chunk=1, what='cx_fuzzapi[%s] retry' % variant)
         for i, r2 in zip(retry, again):
@@ -546,10 +600,22 @@ def build_all(ctx):
         futs = {k: ex.submit(vf.build_cpp, ctx, s, v, e, 'g++', 1500) for k, (s, v, e) in jobs.items()}
         for k, fu in futs.items():
             try:
-                exes[k] = fu.result()
+                exes[k] = private_copy(ctx, fu.result())
             except vf.BuildFailure as e:
                 errs[k] = str(e)
     return exes, errs
+
+
+def private_copy(ctx, exe):
+    """the shared binary cache is trimmed by concurrent checks: run from a copy under ctx.work"""
+    import shutil
+    dst = os.path.join(ctx.work, os.path.basename(exe))
+    if not os.path.exists(dst):
+        try:
+            shutil.copy2(exe, dst)
+        except OSError:
+            return exe
+    return dst
 
 
 def run(ctx):
@@ -579,6 +645,7 @@ def run(ctx):
         if c['line'] not in seen:
             seen.add(c['line'])
             stream.append(c)
+    ctx.rng.fork(2).shuffle(stream)            # slow cases of one family do not end up in the same shard
     base = {}
     for variant in ('asan', 'asanz'):
         if ('fuzz', variant) not in exes:
@@ -678,10 +745,7 @@ def replay(ctx, path):
             q = 'ISECT %s %s %s' % (f['cx'][0], ' '.join(f['cx'][1:]), ' '.join(f['nodes']))
             m = vf.run_lines(vf.oracle_build('inversions'), [q]).stdout.strip()
             print('model : %s' % m[:1500])
-            class _R:      # reuse the comparison on this single case
-                pass
             sub = {}
-            import tempfile
             # run the full comparison on the single line
             old = malformed.gen_ael
             try:
